@@ -120,10 +120,41 @@ def run_impl(cfg, events, ops, trace=False, payload_type=bytes, keymode="script"
     cfg = cfg or {}
     # "mt": False = the single-threaded configuration (enable_multithread=False: dummy locks); implementation-side only —
     # what a call returns, raises and writes must not depend on it
-    ws = websocket.WebSocket(fire_cont_frame=bool(cfg.get("fire")), skip_utf8_validation=bool(cfg.get("skip")),
-                             enable_multithread=bool(cfg.get("mt", True)))
     sock = simnet.SimSocket(events, tail=cfg.get("tail", "eof"), accepts=cfg.get("acc"),
                             send_fail_after=cfg.get("fail"), eagain=cfg.get("eagain"))
+    if keymode == "factory":
+        # the connection is made by the documented factory, the key source given as its keyword argument
+        import base64
+        import hashlib
+        import os as _os
+        key_raw = bytes(range(16))
+        acc_ = base64.b64encode(hashlib.sha1(base64.b64encode(key_raw) + b"258EAFA5-E914-47DA-95CA-C5AB0DC85B11").digest()).decode()
+        head = (f"HTTP/1.1 101 Switching Protocols\r\nUpgrade: websocket\r\nConnection: Upgrade\r\n"
+                f"Sec-WebSocket-Accept: {acc_}\r\n\r\n").encode()
+        sock.events.insert(0, ("chunk", head))
+        saved_acc, sock.accepts = sock.accepts, None
+        _keys = list(cfg.get("keys") or [])
+        _fdraws = []
+
+        def _fkey(n):
+            _fdraws.append(n)
+            return _keys.pop(0) if _keys else b"\x00" * n
+        _old = _os.urandom
+        _os.urandom = lambda k: key_raw[:k]
+        try:
+            ws = websocket.create_connection("ws://example.test/", socket=sock, get_mask_key=_fkey,
+                                             fire_cont_frame=bool(cfg.get("fire")), skip_utf8_validation=bool(cfg.get("skip")))
+        finally:
+            _os.urandom = _old
+        del sock.sent[:]
+        sock.log.clear()
+        sock.calls = 0
+        sock.send_calls = 0
+        del sock.recv_sizes[:]
+        sock.accepts, sock.acc_i = saved_acc, 0
+    else:
+        ws = websocket.WebSocket(fire_cont_frame=bool(cfg.get("fire")), skip_utf8_validation=bool(cfg.get("skip")),
+                                 enable_multithread=bool(cfg.get("mt", True)))
     if cfg.get("to") is not None:
         sock.timeout = cfg["to"] / 1000.0
     ws.sock = sock
@@ -143,7 +174,11 @@ def run_impl(cfg, events, ops, trace=False, payload_type=bytes, keymode="script"
         draw_args.append(n)
         return keys.pop(0) if keys else b"\x00" * n
     old_urandom = os.urandom
-    if keymode == "script":
+    if keymode == "factory":
+        keys = _keys          # (the factory's key source serves the scripted keys; its draws are the ones counted)
+        draw_args = _fdraws
+        draws = _FactoryDraws(_fdraws)
+    elif keymode == "script":
         ws.set_mask_key(get_key)
     elif keymode == "strkey":
         ws.set_mask_key(lambda n: get_key(n).decode("ascii"))
@@ -291,6 +326,16 @@ def tracing(on=True):
         websocket._logging._traceEnabled = False
         lg.setLevel(old_level)
         lg.handlers[:] = old_handlers
+
+
+class _FactoryDraws:
+    """draws[0] = number of keys the factory-configured source has handed out."""
+
+    def __init__(self, lst):
+        self.lst = lst
+
+    def __getitem__(self, i):
+        return len(self.lst)
 
 
 _LAST = {}
